@@ -35,7 +35,10 @@ func (v *VMValue) ToJSONRaw(save map[*VMValue]bool) ([]byte, error) {
 		x.TypeId = v.TypeId
 		x.Value.Expr = cd.Expr
 		if cd.Attrs != nil {
-			attrJson, err := cd.Attrs.ToJSON()
+			if save == nil {
+				save = map[*VMValue]bool{}
+			}
+			attrJson, err := cd.Attrs.toJSONWith(save)
 			if err != nil {
 				return nil, err
 			}
@@ -51,6 +54,7 @@ func (v *VMValue) ToJSONRaw(save map[*VMValue]bool) ([]byte, error) {
 			return nil, errors.New("值错误: 序列化时检测到循环引用")
 		}
 		save[v] = true
+		defer delete(save, v) // 只记录当前路径上的容器: 同一个子数组被多处引用并不是循环
 		ad, _ := v.ReadArray()
 		lst := [][]byte{}
 		for _, i := range ad.List {
@@ -75,9 +79,10 @@ func (v *VMValue) ToJSONRaw(save map[*VMValue]bool) ([]byte, error) {
 			return nil, errors.New("值错误: 序列化时检测到循环引用")
 		}
 		save[v] = true
+		defer delete(save, v)
 		cd := v.MustReadDictData()
 
-		dictJson, err := cd.Dict.ToJSON()
+		dictJson, err := cd.Dict.toJSONWith(save)
 		if err != nil {
 			return nil, err
 		}
